@@ -12,12 +12,11 @@ EXTENDS Equiv, Json, IOUtils
 TraceLog == ndJsonDeserialize(IOEnv.TRACE)
 NT == Cardinality({i \in DOMAIN TraceLog : TraceLog[i].e = "Term"})
 ASSUME TermsFirst == \A i \in 1..NT : TraceLog[i].e = "Term" /\ TraceLog[i].id = i
-G(t) == TraceLog[t].g
 Cls(t) == TraceLog[t].cls
 IsNan(t) == TraceLog[t].nan = 1
-SameT(t, u) == IF t = u THEN TRUE
-               ELSE IF ~Compat(G(t)[1], G(u)[1]) THEN FALSE
-               ELSE SameGraph(G(t), G(u))
+\* terms are declared as graphs or as symbolic nests (Equiv!SameDeclared)
+SameT(t, u) == IF t = u THEN TRUE ELSE SameDeclared(TraceLog[t], TraceLog[u])
+
 
 VARIABLES l,        \* next line of the trace
           bid,      \* current batch id, 0 between batches
@@ -63,6 +62,8 @@ TObs ==
       IN /\ nrej' = nrej
                     + Rule("equal", EqualOK(sameInst, sameTerm, nan, equal))
                     + Rule("pequal", Ev.pequal = -1 \/ EqualOK(sameInst, sameTerm, nan, B(Ev.pequal)))
+                    + Rule("member", Ev.mem = -1 \/ EqualOK(sameInst, sameTerm, nan, B(Ev.mem)))    \* (member a (list b))
+                    + Rule("assoc", Ev.ass = -1 \/ EqualOK(sameInst, sameTerm, nan, B(Ev.ass)))     \* (assoc a (list (cons b 0)))
                     + Rule("eqv", EqvOK(sameInst, sameTerm, nan, Cls(A.t), Cls(Bb.t), A.fresh, Bb.fresh, eqv))
                     + Rule("eq", EqOK(sameInst, sameTerm, Cls(A.t), Cls(Bb.t), A.fresh, Bb.fresh, eq))
                     + Rule("lattice", Lattice(eq, eqv, equal))
